@@ -18,6 +18,7 @@ import (
 	"runtime"
 	"runtime/debug"
 	"runtime/metrics"
+	"runtime/pprof"
 	"sort"
 	"strconv"
 	"strings"
@@ -124,6 +125,12 @@ func (r *R) Evals(n int64) { r.s.Evaluations += n }
 
 // NontrivialN adds n non-trivial evaluations.
 func (r *R) NontrivialN(n int64) { r.s.Nontrivial += n }
+
+// Alive tells the per-case watchdog that the case is making progress (for cases that run many executions).
+func (r *R) Alive() { r.c.curStart.Store(time.Now().UnixNano()) }
+
+// NotExhaustive records that this case hit a cap, so the space was not enumerated completely.
+func (r *R) NotExhaustive() { r.s.Exhaustive = false }
 
 // Count adds to a named extra counter of the space.
 func (r *R) Count(name string, d int64) {
@@ -333,7 +340,14 @@ func runWorker(ck *Check, tier string, seed int64, worker, outf, replay string, 
 			}
 		}
 	}()
+	if pf := os.Getenv("VERIF_CPUPROFILE"); pf != "" && c.shard == 0 {
+		if f, err := os.Create(pf); err == nil {
+			pprof.StartCPUProfile(f)
+			defer pprof.StopCPUProfile()
+		}
+	}
 	ck.Spaces(c)
+	pprof.StopCPUProfile()
 	out := &WorkerOut{Subs: c.subs, Viol: c.viol}
 	if replay != "" {
 		ran := int64(0)
@@ -705,7 +719,7 @@ func spawnWorker(self, prop, tier string, k, n int, tmpd string, budget time.Dur
 		args = append(args, "-careful")
 	}
 	cmd := exec.Command(self, args...)
-	cmd.Env = append(os.Environ(), "GOMAXPROCS=2", "GOMEMLIMIT=4GiB")
+	cmd.Env = append(os.Environ(), "GOMAXPROCS="+envOr("VERIF_GOMAXPROCS", "2"), "GOMEMLIMIT=4GiB")
 	var errb tailBuf
 	cmd.Stderr = &errb
 	cmd.Stdout = os.Stderr
